@@ -15,5 +15,5 @@ done
 # C36 is built with the race detector (separate std build, warmed here)
 go1.26.8 build -race -overlay bin/overlay/overlay.json -o bin/racex ./mc/cmd/racex || rc=1
 # C35 builds an in-package test binary of tools/httpserver at check time; warm it
-./bin/c35 C35 quick build-only >/dev/null 2>&1 || true
+C35_BUILD_ONLY=1 ./bin/c35 C35 quick >/dev/null 2>&1 || true
 exit $rc
